@@ -1007,6 +1007,7 @@ class Body:
                         can.add(b)
                         changed = True
             out = set()
+            allf = {}
             for b in self.reachable:
                 t = self.blocks[b]["term"]
                 if t["k"] != "switch":
@@ -1017,11 +1018,24 @@ class Body:
                         fs = self.edge_facts(b, live[0][1], self.facts_in())
                     except RecursionError:
                         fs = frozenset()
+                    base = self.facts_in().get(b, frozenset())
                     for f in fs:
+                        if f not in base:
+                            allf.setdefault(f, []).append(b)
                         if f[0] == "in" and f[2] in (frozenset(["Some"]), frozenset(["Ok"])) and strip_load(f[1])[0] == "discr":
                             out.add(f)
             self._passert = out
+            self._assertions = allf
         return self._passert
+
+    def asserted(self, f, site):
+        """fact f at `site` comes from a switch, dominating the site, whose other outcomes never reach a normal return
+        (`assert!(c)`, `debug_assert!`, `if !c { panic!() }`, `let .. else { unreachable!() }`): the call either panics or c
+        holds — c is not a condition that selects between doing and silently not doing something, and a later test of the same
+        c is always true"""
+        self.presence_assertions()
+        d = self.dom()
+        return any(site[0] in d and (b in d[site[0]]) and b != site[0] for b in self._assertions.get(f, ()))
 
     # ------------------------------------------------------ events
     def sites(self):
@@ -1108,7 +1122,7 @@ def mk_field(base, name, as_loc=False):
     # tuple field of a checked binop
     if base[0] == "binop" and base[1].endswith("WithOverflow"):
         if name.endswith("::0"):
-            return ("binop", base[1][:-len("WithOverflow")], base[2], base[3])
+            return mk_binop(base[1][:-len("WithOverflow")], base[2], base[3])
         return ("ovf", base)
     if base[0] == "tuple" and name.startswith("(tuple)::"):
         i = int(name.split("::")[1])
@@ -1138,6 +1152,12 @@ def mk_vfield(inner, variant, idx):
 
 
 def mk_binop(op, l, r):
+    # arithmetic on two literals (`HEX_SIZE - 1`): the value itself
+    if op in ("Add", "Sub", "Mul") and l[0] == "const" and r[0] == "const" and len(l) == 2 and len(r) == 2 and \
+            type(l[1]) is int and type(r[1]) is int:
+        v = l[1] + r[1] if op == "Add" else l[1] - r[1] if op == "Sub" else l[1] * r[1]
+        if 0 <= v < 2 ** 63:
+            return ("const", v)
     return ("binop", op, l, r)
 
 
